@@ -2,14 +2,9 @@
 #include "c11_csr_ops.h"
 namespace c11 {
 void registerCsrB() {
-#if 0 // full matrix: see c11_x_*.cpp
-  regCsrOptions<uint64_t>(O_ALL, O_ALL);
-  regCsrOptions<float>(O_ALL, O_ALL);
-#else
   regCsr<Csr<uint64_t, false, false, false>>("lock", O_READ | O_TRANSPOSE | O_SORTDATA | O_VECTORS | O_UNWEIGHTED);
   regCsr<Csr<float, false, false, false>>("lock", O_READ | O_TRANSPOSE | O_SORTDATA | O_GRFILE | O_PODVEC);
   regCsr<Csr<E12, false, false, false>>("lock", O_READ | O_TRANSPOSE | O_SORTDST | O_SORTDATA | O_MANUAL | O_GRFILE | O_FIND);
   regCsr<Csr<E12, false, true, true>>("ool+numa", O_CORE);
-#endif
 }
 } // namespace c11
